@@ -1,9 +1,9 @@
-(* Property C20, K1 source tie.  Statements only; proofs are in Proofs/GenSrcImageProofs.v.
+(* Property C20, K1 source tie.  Statements only; proofs are in Proofs/GenSrcSubProofs.v.
    The rotation of the starting image and the shared fragment budget of Subscription::poll_inner, translated from
-   src/subscription.rs on every run (tools/props/src_translate.py, Generated/GenSrcImage.v), against
+   src/subscription.rs on every run (tools/props/src_translate.py, Generated/GenSrcSub.v), against
    Model/Subscription.v (rr_next, poll_range). *)
 Require Import V.Base.MachineInt V.Base.MachineInt2 V.Base.MachineIntT V.Model.Subscription
-               V.Generated.GenSrcImage V.Proofs.GenSrcImageProofs.
+               V.Generated.GenSrcSub V.Proofs.GenSrcSubProofs.
 Open Scope Z_scope.
 
 (* start at round_robin_index, advance it by one, start over at 0 once it reaches the number of images *)
